@@ -173,6 +173,8 @@ struct Mock {
     short: bool,
     /// a read was offered less than LW = 1024 bytes of room
     low_room: bool,
+    /// number of `poll_read` calls so far: selects how the next one handles the ReadBuf
+    reads: usize,
 }
 
 impl AsyncRead for Mock {
@@ -184,6 +186,18 @@ impl AsyncRead for Mock {
         if buf.remaining() < 1024 {
             self.low_room = true;
         }
+        // Three legal ways of using a ReadBuf, in rotation: `put_slice`; initialise the whole unfilled part first, copy,
+        // `advance` (what adapters around a blocking `read(&mut [u8])` and TLS streams do); initialise a little more than is
+        // filled.  "Initialised" is not "filled": only the filled bytes were read — also when the answer is Pending, an error
+        // or end of stream.
+        let style = self.reads % 3;
+        self.reads += 1;
+        if style == 1 {
+            buf.initialize_unfilled();
+        } else if style == 2 {
+            let room = buf.remaining();
+            buf.initialize_unfilled_to(room.min(13));
+        }
         match self.rd.pop_front() {
             None | Some(Rd::Eof) => Poll::Ready(Ok(())),
             Some(Rd::Pending) => {
@@ -193,7 +207,13 @@ impl AsyncRead for Mock {
             Some(Rd::Err) => Poll::Ready(Err(mock_err())),
             Some(Rd::Chunk(data)) => {
                 let n = data.len().min(buf.remaining());
-                buf.put_slice(&data[..n]);
+                if style == 0 {
+                    buf.put_slice(&data[..n]);
+                } else {
+                    let more = (n + 5).min(buf.remaining());
+                    buf.initialize_unfilled_to(more)[..n].copy_from_slice(&data[..n]);
+                    buf.advance(n);
+                }
                 if n < data.len() {
                     self.short = true;
                     self.rd.push_front(Rd::Chunk(data[n..].to_vec()));
